@@ -11,6 +11,7 @@ CONSTANTS
   MaxUDP = 48
   FrameMode = "truncating"
   PtrMode = "bounded"
+  DecoderMode = "pure"
   NonceMode = "fresh"
   ReqLens <- Upto17
   RespLens <- Upto17
